@@ -5,6 +5,10 @@ HERE = os.path.dirname(os.path.dirname(os.path.abspath(__file__)))
 
 # id -> (technique, level text, level note, design ref)
 CHECKS = {
+ "C11": ("round-trip / idempotence PBT on generated fonts (as PL text and as scrambled-layout TFM bytes) with an independent raw TFM reader (reference model, TeX 540-546) and differential runs of the two compiled lig/kern programs; corpus fonts as calibration",
+         "Random fonts (0-256 characters, dimension tables at the 15/15/63/255 limits, lig/kern tables with shared chains, SKIP/STOP, all eight ligature forms, >255 instructions with redirected entry points, boundary char and boundary label, NEXTLARGER chains, VARCHAR recipes, header fields, up to 254 parameters) as PL text and as TFM files written by an own writer with shuffled/duplicated/unused table entries; every warning-free corpus font and property list. t1 = pl_to_tfm(tfm_to_pl(t0)): (i) a further round trip is the byte identity without warnings, identical for all three character display formats; (ii) the raw reader sees the same resolved width/height/depth/italic, tag, parameters and header (modulo Knuth's documented header normalisations); (iii) the instruction TeX 1039 would select is the same for every (left incl. boundary, right) pair, and the two compiled programs produce identical run output on letters, pairs and sampled 3-letter words with the left boundary on and off; (iv) canonical tables are zero-first, strictly increasing, kerns deduplicated.",
+         "Trusted: the raw TFM reader and the own TFM writer inside c11.rs, proptest. Fonts that do not convert warning-free are skipped and counted (generated ones must convert: a failure there is a violation).",
+         "DESIGN.md §4 C11"),
  "C14": ("PBT with invariant oracles (conservation, letter preservation) + reference Liang positions + replay of TeX 913-916 on letter counts, calibrated on the crate's 33 unit goldens and 995 TeX-produced Alice boxes",
          "Random texts in cmr10 (ligatures, kerns, punctuation, digits, explicit hyphens, 64+ letter words, words after letterless tokens, nodes pushed directly after words) and in cmr10's metrics with generated lig/kern programs involving the hyphen and both boundaries; custom and plain TeX pattern sets; hyphen minimums 1..5 x 1..5. (i) deleting the inserted discretionaries gives back the original list node for node; (ii) at each discretionary pre-break minus hyphen + post-break carry the letters of the replaced nodes; (iii) every discretionary sits at a Liang position allowed by the minimums; (iv) every allowed position has a discretionary unless it lies strictly inside the letters replaced by an earlier one (for kern/=:-only fonts TeX 913-916 is replayed exactly); words tried = the first letter run after every glue.",
          "Trusted: models/liang.rs, the conservation alignment, cmr10 from the corpus, proptest; a 20 s per-case watchdog reports a hang as a violation. Words where TeX itself rebuilds the list (ligature/implicit kern across the word end) and looping programs are outside the property: skipped and counted.",
